@@ -10,14 +10,14 @@ REWIRERS = ['randmio_und', 'randmio_dir', 'randmio_und_connected', 'randmio_dir_
 UTL = 'contracts.utils'
 
 REGISTRY = {
-    'C01': dict(level='proof', bounded='checks.bounded.C01',
+    'C01': dict(extra_proved=['checks.lean_check.lean'], level='proof', bounded='checks.bounded.C01',
                 pyvc=[(REF, k, None, C11_CLAUSES) for k in REWIRERS], trusted=PYVC_TRUSTED,
                 assumptions=['randomizer_bin_und is outside the VC generator\'s subset (whole-array set operations): bounded only',
                              'connectivity blocks of the *_connected variants and the default-D construction of the latticisers are abstracted (havoc of their write set; frame obligation syntactic)'],
                 technique='deductive: loop invariants + postconditions on the real source via own VC generator (pyvc) and z3; bounded stand-in for randomizer_bin_und'),
-    'C06': dict(level='proof', bounded='checks.bounded.C06', pyvc=[(REF, 'randmio_dir_signed', None, None), (REF, 'randmio_und_signed', None, None)], trusted=PYVC_TRUSTED,
+    'C06': dict(extra_proved=['checks.lean_check.lean'], level='proof', bounded='checks.bounded.C06', pyvc=[(REF, 'randmio_dir_signed', None, None), (REF, 'randmio_und_signed', None, None)], trusted=PYVC_TRUSTED,
                 technique='deductive (pyvc+z3) for randmio_*_signed; bounded stand-in for null_model_*_sign'),
-    'C11': dict(level='other', bounded='checks.bounded.C11',
+    'C11': dict(extra_proved=['checks.lean_check.lean'], level='other', bounded='checks.bounded.C11',
                 pyvc=[(REF, k, C11_CLAUSES, None) for k in ['latmio_und', 'latmio_dir', 'latmio_und_connected', 'latmio_dir_connected', 'randomize_graph_partial_und']] +
                      [(REF, 'randmio_und_connected#reject', None, None), (REF, 'latmio_und_connected#reject', None, None)], trusted=PYVC_TRUSTED,
                 technique='deductive (pyvc+z3) for lattice cost, mask and input rejection; connectivity preservation bounded only'),
@@ -31,11 +31,19 @@ REGISTRY = {
     'C05': dict(level='proof', bounded='checks.bounded.C05', extra_proved=['checks.static_proved.c05'],
                 trusted=['engine/pyframe/effects.py (syntactic effect obligations E1-E4)', 'numpy/scipy routines called by bct do not draw random numbers themselves',
                          'get_rng behaves as documented (decided by the bounded tier: None/np.random -> global, RandomState passed through, otherwise fresh RandomState(seed))'],
-                technique='static effect obligations (no global-random use, all draws through get_rng(seed)\'s generator, nested calls receive the generator, no other nondeterminism source) over every seed-accepting function; dynamic cross-check (bounded)'),    'C15': dict(level='proof', bounded='checks.bounded.C15', pyvc=[('contracts.core_c15', k, None, None) for k in ['kcore_bu', 'kcore_bd', 'score_wu']],
+                technique='static effect obligations (no global-random use, all draws through get_rng(seed)\'s generator, nested calls receive the generator, no other nondeterminism source) over every seed-accepting function; dynamic cross-check (bounded)'),    'C15': dict(extra_proved=['checks.lean_check.lean'], level='proof', bounded='checks.bounded.C15', pyvc=[('contracts.core_c15', k, None, None) for k in ['kcore_bu', 'kcore_bd', 'score_wu']],
                 trusted=PYVC_TRUSTED + ['counting lemmas lemma_masked_degree / lemma_degree_monotone (code-independent; engine/lean)', 'callee contracts of degrees_und / degrees_dir / strengths_und (column/row counts and sums)'],
                 assumptions=['peel=True outputs and kcoreness_centrality_bu/_bd are covered by the bounded stand-in only'],
-                technique='deductive (pyvc+z3): ghost alive-set invariant, maximality against an arbitrary (Skolem) node set meeting the bound; bounded subset-enumeration oracle for coreness and peel outputs'),
+                technique='deductive (pyvc+z3): ghost alive-set invariant, maximality against an arbitrary (Skolem) node set meeting the bound; bounded subset-enumeration oracle for coreness and peel outputs'),    'C02': dict(extra_proved=['checks.lean_check.lean'], level='proof', bounded='checks.bounded.C02', pyvc=[('contracts.modularity', k, None, r'C07-') for k in ['modularity_finetune_und', 'modularity_finetune_dir']],
+                trusted=PYVC_TRUSTED + ['modularity lemmas of engine/pyvc/core.py (gain lemma Qraw_move+nm_modularity, q_from_aggregate, relabelling invariance, node-to-module sum identities): code-independent, Lean'],
+                assumptions=['products/quotients of two symbolic reals are kept uninterpreted (umul/udiv) in the shape the code computes them; only sign facts of udiv are used',
+                             'all other detectors (Louvain family, signed variants, probtune, spectral modularity_und/_dir, community_louvain) are covered by the bounded stand-in only'],
+                technique='deductive (pyvc+z3+lemmas) for modularity_finetune_und/_dir: labels exactly 1..k and returned q = modularity of the returned labels; bounded stand-in for the other detectors'),
+    'C07': dict(extra_proved=['checks.lean_check.lean'], level='proof', bounded='checks.bounded.C07', pyvc=[('contracts.modularity', k, None, r'C02-') for k in ['modularity_finetune_und', 'modularity_finetune_dir']],
+                trusted=PYVC_TRUSTED + ['modularity lemmas of engine/pyvc/core.py (gain lemma, relabelling invariance, node-to-module sum identities): code-independent, Lean'],
+                assumptions=['products/quotients of two symbolic reals are kept uninterpreted (umul/udiv)', 'Louvain family, signed variants and community_louvain: bounded stand-in only (per-move woven gain check)'],
+                technique='deductive (pyvc+z3+gain lemma): bookkeeping invariant KInv and Q never below the start for modularity_finetune_und/_dir, all networks, all start partitions, all visiting orders; bounded per-move gain monitor for the other optimisers'),
 }
-for _pid in ['C02', 'C03', 'C04', 'C07', 'C08', 'C09', 'C10', 'C12', 'C14', 'C16', 'C18', 'C19', 'C20']:
+for _pid in ['C03', 'C04', 'C08', 'C09', 'C10', 'C12', 'C14', 'C16', 'C18', 'C19', 'C20']:
     REGISTRY.setdefault(_pid, dict(level='exploration', bounded='checks.bounded.%s' % _pid, trusted=['oracles of checks/bounded/%s.py' % _pid],
                                    technique='bounded stand-in: the property\'s contract executed on the real functions over exhaustive small scopes'))
